@@ -10,8 +10,8 @@ from .lib.mir import AnchorLost
 CONFIGS_QUICK = ["A"]
 CONFIGS_THOROUGH = ["A", "R", "NOAPI"]
 TECHNIQUE = "sibling-family rules over the impl table (absolute rule per member + agreement with the member's arity) and dominance rules on FangActionProc::bite's coroutine"
-LEVEL_TEXT = ('Decides clauses C04-a..d and C04-f/g/h: each of the Fangs impls (blanket, unit, tuples 1-8) builds chain(f1, chain(f2, .. chain(fn, inner))) and hands'
-              ' exactly that to BoxedFPC::from_proc (same nesting for openapi_map_operation); FangActionProc::bite calls the inner proc only on the Ok edge of fore, '
+LEVEL_TEXT = ('Decides clauses C04-a..d and C04-f..i: each of the Fangs impls (blanket, unit, tuples 1-8) builds chain(f1, chain(f2, .. chain(fn, inner))) and hands '
+              'exactly that to BoxedFPC::from_proc (same nesting for openapi_map_operation); FangActionProc::bite calls the inner proc only on the Ok edge of fore, '
               "back only after the inner proc, and returns the Err response without either; the four local-fang IntoHandler impls wrap the handler's own proc with "
               'the fang tuple in declaration order and delegate n_params; every Routing impl (all arities) stores the tuple of its leading fang components in order '
               "and applies each remaining component exactly once, in order; FangsList::into_proc_with seeds the fold with the first list's build of the handler proc "
@@ -19,8 +19,9 @@ LEVEL_TEXT = ('Decides clauses C04-a..d and C04-f/g/h: each of the Fangs impls (
               "the per-method tree merge passes through the step that hands the mounted application's fangs to the mount point (no early success return before it); a"
               " node's fang list grows only in FangsList::add, under a search of the whole list for the application id (no duplicate entry, so no fang runs twice); "
               "the final tree's single-child compression absorbs a child only under tests that node, child and the node above carry the same fangs (two known "
-              'findings on the pinned tree: it does not, see known_findings.json). Decides these clauses, not the order/scope across mounted applications after tree '
-              'compression.')
+              "findings on the pinned tree: it does not, see known_findings.json); in Node::search_target every answer made on the edge where a node's pattern "
+              "matched names that node, so a miss under a mount is handled by the catch that carries the mounted application's fangs. Decides these clauses, not the "
+              'order/scope across mounted applications after tree compression.')
 
 FANG_CHAIN = r"^ohkami::fang::Fang::chain$"
 
@@ -37,6 +38,7 @@ def run(ck, progs):
         ck.guard("C04-f MUSTPASS mount fangs", lambda: c04f(ck, prog))
         ck.guard("C04-g INVARIANT one entry per application", lambda: c04g(ck, prog))
         ck.guard("C04-h GUARD compression keeps fang scope", lambda: c04h(ck, prog))
+        ck.guard("C04-i DECISION miss answered by deepest match", lambda: c04i(ck, prog))
     ck.config = None
 
 
@@ -466,3 +468,45 @@ def c04h(ck, prog):
           "" if outer else "a node absorbs its single static child without a test that the node above carries the same fangs (tests on fang lists in the iteration: %r): a miss under the merged pattern "
           "falls to the node above and skips the mounted application's fangs (`(P, \"/\".GET(h), \"/v\".GET(h), \"/api\".By(Ohkami::new((C, \"/x\".GET(h)))))`: GET /api/nope runs P only)" % tests,
           how="absorb dominated by %s" % (outer[0] if outer else ""))
+
+
+def c04i(ck, prog):
+    """`fangs of an application run for every request whose path lies under its mount prefix (also when it ends in 404
+    there)`: a miss is answered by the `catch` of the deepest node whose pattern matched, because that node carries the fangs
+    of every application the path is under. In Node::search_target every answer made under the edge on which a node's
+    pattern matched names that node (hit or miss); the parent is named only after all children failed to match."""
+    R = "C04-i DECISION miss answered by deepest match"
+    f = prog.one(r"^ohkami::router::r#final::Node::search_target$")
+    n = 0
+    for bb, kind, pl in paths.ret_sites(f):
+        if not (isinstance(pl, list) and pl and pl[0] == "agg" and len(pl[2]) == 2):
+            continue
+        n += 1
+        node = decision.describe_deep(f, pl[2][0], 4)
+        hit = decision.describe_deep(f, pl[2][1], 1)
+        matched = None   # innermost node whose take_through answered Some on a dominating edge
+        exhausted = False
+        for fa in guards.facts_at(f, prog, bb):
+            if fa.kind != "variant" or not fa.steps or fa.steps[-1][0] != "call":
+                continue
+            c = fa.steps[-1][1]
+            if c.name == "take_through" and fa.allowed == {"Some"}:
+                who = decision.describe_deep(f, c.args[0], 4)
+                who = re.sub(r"\.pattern$", "", who)
+                if matched is None or "next(" in who:
+                    matched = who
+            if c.name == "next" and fa.allowed == {"None"}:
+                exhausted = True
+        if matched is None:
+            ok = True
+            how = "answers `%s` where no pattern matched" % node
+        elif exhausted:
+            ok = True   # all children of the current target failed: the target (the last node descended into) answers
+            how = "after all children failed the current node answers"
+        else:
+            ok = node == matched
+            how = "under the edge on which `%s` matched, `%s` answers" % (matched, node)
+        ck.ob(R, "answer#%d:%s" % (n, "hit" if hit.endswith("1") else "miss"), ok, f.loc(f.blocks[bb]["t"].get("sp")),
+              "" if ok else "search_target answers with `%s` on the edge where the pattern of `%s` matched a prefix of the path: the miss is handled by the parent's catch, so the fangs of an application mounted at the matched node "
+              "are skipped for 404s under its prefix (GET /api/unknown with a leaf mount node)" % (node, matched), how=how)
+    ck.floor(R, "answers of search_target", n, 4)
